@@ -31,6 +31,7 @@ DevsFor(ds) ==
   \cup {Dev("leaf_edit", 0, t, j, d) : t \in SomePos(0), j \in {2, 3}, d \in ds}
   \cup {Dev("leaf_recommit", 0, t, j, d) : t \in SomePos(0), j \in {2, 3}, d \in ds}
   \cup {Dev("leaf_kernel", 0, t, 0, d) : t \in SomePos(0), d \in ds}
+  \cup {Dev("leaf_kernel_recommit", 0, t, 0, d) : t \in SomePos(0), d \in ds}
   \cup {Dev("init_path", o, t, 0, 0) : o \in {Orc[p] : p \in 1..NPolys}, t \in {1, N - 2}}
   \cup UNION {{Dev("layer_path", l, t, 0, 0) : t \in {0, LSize(l + 1) - 1}} : l \in Layers}
   \cup UNION {{Dev("coset_edit", l, t, 0, d) : t \in SomePos(l), d \in ds} : l \in Layers}
@@ -42,8 +43,11 @@ n2 == 2 ^ (DB - SumAr(Enter))
 Devs2(ds) ==
   IF Enter = 0 THEN {}
   ELSE {Dev("claim_edit2", 1, 0, j, d) : j \in 1..Len(Polys2), d \in ds}
-       \cup {Dev("leaf_edit2", 0, t, j, d) : t \in SomePos(Enter), j \in 1..Len(Polys2), d \in ds}
-       \cup {Dev("leaf_recommit2", 0, t, j, d) : t \in SomePos(Enter), j \in 1..Len(Polys2), d \in ds}
+       \* leaf edits on polynomial 1, which is opened at one point only: an edit of a polynomial opened at
+       \* several points is invisible exactly on the roots of a non-zero polynomial in alpha (a small-field
+       \* coincidence; negligible for extension-field challenges)
+       \cup {Dev("leaf_edit2", 0, t, 1, d) : t \in SomePos(Enter), d \in ds}
+       \cup {Dev("leaf_recommit2", 0, t, 1, d) : t \in SomePos(Enter), d \in ds}
        \cup {Dev("high_degree2", 0, dg, 1, d) : dg \in (n2 + 1)..(LSize(Enter) - 1), d \in ds}
        \cup {Dev("degree_n2", 0, n2, 1, d) : d \in ds}
 
@@ -74,6 +78,8 @@ Orc_112 == <<1, 1, 2>>
 F17_Deltas == <<1, 11>>
 AllFp == 0..(P - 1)
 NoPolys == <<>>
+CanaryAlphas == {2}          \* one generic challenge tuple per scenario suffices for the Disabled runs
+CanaryBetas == {1, 2}
 AR_21 == <<2, 1>>
 AR_111 == <<1, 1, 1>>
 F97_Polys == << << <<1,2,3,4,5,6,7,8>>, <<90,0,7,1,0,0,33,2>>, <<2,2,0,9,96,5,5,61>> >>,
@@ -91,7 +97,9 @@ Init == InitWith(Scenarios)
 Spec == Init /\ [][Next]_vars
 
 SetsJson(s) == [c \in Classes |-> {[fails |-> F, first |-> First(F \ Disabled)] : F \in s[c]}]
-Emit == Done => PrintT("REPLAY " \o ToJson([dev |-> D, batched |-> (Enter > 0), ps |-> sc.ps, bs |-> sc.bs, nb |-> NB, chal |-> chal, gen |-> gen,
+Emit == Done => PrintT("REPLAY " \o ToJson([dev |-> D, batched |-> (Enter > 0), nl |-> NL, enter |-> Enter, ps |-> sc.ps, bs |-> sc.bs, nb |-> NB, chal |-> chal, gen |-> gen,
                                           class |-> Class, n |-> res.n, sets |-> SetsJson(res.sets)]))
-Facts == IndexFacts
+(* FriIndex: domain points are distinct, the next point is x^arity, and the coset the verifier rebuilds
+   from any member (compute_evaluation) is the chunk the prover committed *)
+ASSUME IndexFacts
 =============================================================================
